@@ -29,7 +29,7 @@ pub fn check_parse<A: Codec, const N: usize>(al: &Alpha, bytes: &[u8; N], r: Res
         i += 1;
     }
     reach!(r.is_ok(), "accepted");
-    reach!(r.is_err() || N == 0, "rejected");
+    reach!(r.is_err(), "rejected");
     match r {
         Ok(s) => {
             assert!(first_bad.is_none(), "C01.parse.accepted_a_non_symbol_byte");
@@ -48,22 +48,203 @@ pub fn check_parse<A: Codec, const N: usize>(al: &Alpha, bytes: &[u8; N], r: Res
     }
 }
 
-harnesses! {
-    fn c01_p_parse_dna_n2 [4] { parse_vec!(Dna, oracle::DNA, [a, b], 2) }
-    fn c01_p_parse_dna_n2_valid [4] {
-        let (a, b) = (any_u8(), any_u8());
-        assume(Dna::try_from_ascii(a).is_some() && Dna::try_from_ascii(b).is_some());
-        let r = Seq::<Dna>::try_from(vec![a, b]);
-        check_parse::<Dna, 2>(&oracle::DNA, &[a, b], r);
+/// N = 1: the single byte is fully symbolic (all 256 values, incl. non-ASCII)
+macro_rules! parse1 {
+    ($A:ty, $al:expr) => {{
+        let a = any_u8();
+        let r = Seq::<$A>::try_from(vec![a]);
+        check_parse::<$A, 1>(&$al, &[a], r);
+    }};
+}
+/// N = 2: first byte from a concrete representative set (so the builder's state
+/// stays concrete after the first step), second byte fully symbolic
+macro_rules! parse2 {
+    ($A:ty, $al:expr, $first:expr) => {{
+        let b = any_u8();
+        let r = Seq::<$A>::try_from(vec![$first, b]);
+        check_parse2::<$A>(&$al, $first, b, r);
+    }};
+}
+macro_rules! parse3 {
+    ($A:ty, $al:expr, $first:expr, $second:expr) => {{
+        let c = any_u8();
+        let r = Seq::<$A>::try_from(vec![$first, $second, c]);
+        let first_ok = $al.from_char[$first as usize] != NONE;
+        let second_ok = $al.from_char[$second as usize] != NONE;
+        let third_ok = $al.from_char[c as usize] != NONE;
+        match r {
+            Ok(s) => {
+                assert!(first_ok && second_ok && third_ok, "C01.parse.accepted_a_non_symbol_byte");
+                assert!(s.len() == 3, "C01.parse.one_symbol_per_byte");
+                assert!(s.nth(0).to_bits() == $al.from_char[$first as usize] as u8, "C01.parse.symbol_j_is_byte_j");
+                assert!(s.nth(1).to_bits() == $al.from_char[$second as usize] as u8, "C01.parse.symbol_j_is_byte_j");
+                assert!(s.nth(2).to_bits() == $al.from_char[c as usize] as u8, "C01.parse.symbol_j_is_byte_j");
+                core::mem::forget(s);
+            }
+            Err(e) => {
+                assert!(!(first_ok && second_ok && third_ok), "C01.parse.refused_valid_text");
+                let bad = if !first_ok { $first } else if !second_ok { $second } else { c };
+                assert!(e == ParseBioError::UnrecognisedBase(bad), "C01.parse.reports_first_bad_byte");
+            }
+        }
+        reach!("end");
+    }};
+}
+
+#[inline(always)]
+pub fn check_parse2<A: Codec>(al: &Alpha, a: u8, b: u8, r: Result<Seq<A>, ParseBioError>) {
+    let a_ok = al.from_char[a as usize] != NONE;
+    let b_ok = al.from_char[b as usize] != NONE;
+    match r {
+        Ok(s) => {
+            assert!(a_ok && b_ok, "C01.parse.accepted_a_non_symbol_byte");
+            assert!(s.len() == 2, "C01.parse.one_symbol_per_byte");
+            assert!(s.nth(0).to_bits() == al.from_char[a as usize] as u8, "C01.parse.symbol_j_is_byte_j");
+            assert!(s.nth(1).to_bits() == al.from_char[b as usize] as u8, "C01.parse.symbol_j_is_byte_j");
+            core::mem::forget(s);
+        }
+        Err(e) => {
+            assert!(!(a_ok && b_ok), "C01.parse.refused_valid_text");
+            let bad = if !a_ok { a } else { b };
+            assert!(e == ParseBioError::UnrecognisedBase(bad), "C01.parse.reports_first_bad_byte");
+        }
     }
-    fn c01_p_parse_dna_n2_u3 [3] { parse_vec!(Dna, oracle::DNA, [a, b], 2) }
-    fn c01_p_push2 [3] {
+    reach!("end");
+}
+
+/// inductive step of the builder: push onto an owned sequence of L symbols
+/// (symbolic content, spare capacity) keeps the old symbols and appends one
+macro_rules! push_step {
+    ($A:ty, $al:expr, $N:expr, $L:expr) => {{
+        let b = <$A as Codec>::BITS as usize;
+        let w = any_words::<2>();
+        let a = arr::<$A, { $N }, 2>(w);
+        let mut s = owned_cap(&a, 0, $L, $L + 4);
+        let x = <$A as Codec>::try_from_bits(any_u8());
+        assume(x.is_some());
+        let x = x.unwrap();
+        s.push(x);
+        assert!(s.len() == $L + 1, "C01.push.len_plus_one");
+        let i = any_usize();
+        assume(i <= $L);
+        if i == $L {
+            assert!(s.nth(i) == x, "C01.push.appended_symbol");
+        } else {
+            assert!(s.nth(i).to_bits() == $al.from_bits[sym(&w, 0, b, i) as usize] as u8, "C01.push.old_symbols_unchanged");
+        }
+        reach!(i == $L, "new symbol");
+        reach!(i < $L || $L == 0, "old symbol");
+        core::mem::forget(s);
+    }};
+}
+
+/// display: String::from(&slice) is the symbols' display characters, in order
+macro_rules! display {
+    ($A:ty, $al:expr, $N:expr, $o:expr, $n:expr) => {{
+        let b = <$A as Codec>::BITS as usize;
+        let w = any_words::<2>();
+        let s = arr::<$A, { $N }, 2>(w);
+        let win = &s[$o..$o + $n];
+        let text = String::from(win);
+        let bytes = text.as_bytes();
+        assert!(bytes.len() == $n, "C01.display.one_char_per_symbol");
+        let i = any_usize();
+        assume(i < $n);
+        let code = $al.from_bits[sym(&w, $o * b, b, i) as usize] as usize;
+        assert!(bytes[i] == $al.to_char[code], "C01.display.char_i_is_symbol_i");
+        // display -> parse gives the symbol back (composition with the parser's per-byte table)
+        assert!(<$A as Codec>::try_from_ascii(bytes[i]).map(|x| x.to_bits()) == Some(code as u8), "C01.display.parses_back");
+        reach!("end");
+        core::mem::forget(text);
+    }};
+}
+
+harnesses! {
+    // ---- N = 0 and N = 1, every codec
+    fn c01_q_parse0_dna [3] { let r = Seq::<Dna>::try_from(Vec::<u8>::new()); assert!(r.is_ok(), "C01.parse.empty_ok"); let s = r.unwrap(); assert!(s.len() == 0 && s.is_empty(), "C01.parse.empty_len"); reach!("end"); }
+    fn c01_q_parse1_dna [3] { parse1!(Dna, oracle::DNA) }
+    fn c01_q_parse1_iupac [6] { parse1!(Iupac, oracle::IUPAC) }
+    fn c01_q_parse1_amino [8] { parse1!(Amino, oracle::AMINO) }
+    fn c01_q_parse1_text [10] { parse1!(text::Dna, oracle::TEXT) }
+    fn c01_q_parse1_mdna [6] { parse1!(masked::Dna, oracle::MDNA) }
+    fn c01_q_parse1_miupac [7] { parse1!(masked::Iupac, oracle::MIUPAC) }
+    fn c01_q_parse1_degen [3] { parse1!(degenerate::Dna, oracle::DEGEN) }
+    // ---- N = 2
+    fn c01_q_parse2_dna_G [3] { parse2!(Dna, oracle::DNA, b'G') }
+    fn c01_q_parse2_dna_bad [3] { parse2!(Dna, oracle::DNA, b'N') }
+    fn c01_t_parse2_amino_W [8] { parse2!(Amino, oracle::AMINO, b'W') }
+    fn c01_q_parse2_miupac_n [7] { parse2!(masked::Iupac, oracle::MIUPAC, b'n') }
+    fn c01_t_parse2_dna_T [3] { parse2!(Dna, oracle::DNA, b'T') }
+    fn c01_t_parse2_dna_hi [3] { parse2!(Dna, oracle::DNA, 0xC3) }
+    fn c01_t_parse2_iupac_gap [6] { parse2!(Iupac, oracle::IUPAC, b'-') }
+    fn c01_t_parse2_iupac_bad [6] { parse2!(Iupac, oracle::IUPAC, b'a') }
+    fn c01_t_parse2_amino_stop [8] { parse2!(Amino, oracle::AMINO, b'*') }
+    fn c01_t_parse2_text_N [10] { parse2!(text::Dna, oracle::TEXT, b'N') }
+    fn c01_t_parse2_mdna_pad [6] { parse2!(masked::Dna, oracle::MDNA, b'.') }
+    fn c01_t_parse2_degen_C [3] { parse2!(degenerate::Dna, oracle::DEGEN, b'C') }
+    // ---- N = 3
+    fn c01_t_parse3_dna_CA [3] { parse3!(Dna, oracle::DNA, b'C', b'A') }
+    fn c01_t_parse3_dna_CU [3] { parse3!(Dna, oracle::DNA, b'C', b'U') }
+    // ---- builder step across the word boundary (capacity present)
+    fn c01_q_push_dna_l31 [3] { push_step!(Dna, oracle::DNA, 64, 31) }
+    fn c01_q_push_dna_l32 [3] { push_step!(Dna, oracle::DNA, 64, 32) }
+    fn c01_t_push_amino_l10 [8] { push_step!(Amino, oracle::AMINO, 21, 10) }
+    fn c01_q_push_miupac_l12 [7] { push_step!(masked::Iupac, oracle::MIUPAC, 25, 12) }
+    fn c01_t_push_iupac_l15 [6] { push_step!(Iupac, oracle::IUPAC, 32, 15) }
+    fn c01_t_push_iupac_l16 [6] { push_step!(Iupac, oracle::IUPAC, 32, 16) }
+    fn c01_t_push_text_l7 [10] { push_step!(text::Dna, oracle::TEXT, 16, 7) }
+    fn c01_t_push_text_l8 [10] { push_step!(text::Dna, oracle::TEXT, 16, 8) }
+    fn c01_t_push_degen_l63 [3] { push_step!(degenerate::Dna, oracle::DEGEN, 128, 63) }
+    fn c01_t_push_degen_l64 [3] { push_step!(degenerate::Dna, oracle::DEGEN, 128, 64) }
+    fn c01_t_push_amino_l9 [8] { push_step!(Amino, oracle::AMINO, 21, 9) }
+    fn c01_t_push_dna_l0 [3] { push_step!(Dna, oracle::DNA, 64, 0) }
+    // ---- display
+    fn c01_q_display_dna_o31_n2 [4] { display!(Dna, oracle::DNA, 64, 31, 2) }
+    fn c01_q_display_amino_o10_n2 [4] { display!(Amino, oracle::AMINO, 21, 10, 2) }
+    fn c01_t_display_dna_o0_n3 [5] { display!(Dna, oracle::DNA, 64, 0, 3) }
+    fn c01_t_display_iupac_o15_n2 [4] { display!(Iupac, oracle::IUPAC, 32, 15, 2) }
+    fn c01_t_display_miupac_o12_n2 [4] { display!(masked::Iupac, oracle::MIUPAC, 25, 12, 2) }
+    // ---- other entry points agree with the byte parser (N = 1, all ASCII bytes; &str needs valid UTF-8)
+    fn c01_q_entry_str_dna [3] {
+        let a = any_u8();
+        assume(a < 0x80);
+        let buf = [a];
+        // ASCII is valid UTF-8; skip the validation loop, it is not the subject
+        let st = unsafe { core::str::from_utf8_unchecked(&buf) };
+        let r = Seq::<Dna>::try_from(st);
+        check_parse::<Dna, 1>(&oracle::DNA, &[a], r);
+    }
+    fn c01_q_entry_fromstr_dna [3] {
+        let a = any_u8();
+        assume(a < 0x80);
+        let buf = [a];
+        let st = unsafe { core::str::from_utf8_unchecked(&buf) };
+        let r = Seq::<Dna>::from_str(st);
+        check_parse::<Dna, 1>(&oracle::DNA, &[a], r);
+    }
+    fn c01_q_entry_slice_dna [3] {
+        let a = any_u8();
+        let buf = [a];
+        let r = Seq::<Dna>::try_from(&buf[..]);
+        check_parse::<Dna, 1>(&oracle::DNA, &[a], r);
+    }
+    fn c01_t_entry_string_dna [3] {
+        let a = any_u8();
+        assume(a < 0x80);
+        let st = unsafe { String::from_utf8_unchecked(vec![a]) };
+        let r1 = Seq::<Dna>::try_from(&st);
+        check_parse::<Dna, 1>(&oracle::DNA, &[a], r1);
+        let r2 = Seq::<Dna>::try_from(st);
+        check_parse::<Dna, 1>(&oracle::DNA, &[a], r2);
+    }
+    fn c01_q_entry_from_iter_dna [3] {
+        // FromIterator<A>: two symbolic symbols
         let (a, b) = (any_u8(), any_u8());
         assume(a < 4 && b < 4);
-        let mut s = Seq::<Dna>::new();
-        s.push(Dna::try_from_bits(a).unwrap());
-        s.push(Dna::try_from_bits(b).unwrap());
-        assert!(s.len() == 2, "C01.p");
+        let s: Seq<Dna> = [Dna::try_from_bits(a).unwrap(), Dna::try_from_bits(b).unwrap()].into_iter().collect();
+        assert!(s.len() == 2, "C01.from_iter.len");
+        assert!(s.nth(0).to_bits() == a && s.nth(1).to_bits() == b, "C01.from_iter.symbols_in_order");
+        reach!("end");
         core::mem::forget(s);
     }
 }
